@@ -113,12 +113,12 @@ def run(task):
                 res["outcomes"].append(h(shape))
                 if sp or shape[-1] >= 2:
                     res["nontrivial"].append(key)
-                if backend == "cbc" and len(res["state_set"]) % 3 == 0:
+                if backend == "cbc" and len(res["state_set"]) % 4 == 0:
                     k = len(res["state_set"])
                     wrec = {"k": "pos", "de": 0.35} if recipe["k"] != "pos" else {"k": "comb", "a": 1.0, "b": 1.0, "de": 1.0}
-                    if (k // 12) % 2 == 0:
+                    if (k // 16) % 2 == 0:
                         wrec = recipe  # the earlier alignment used the very same dissimilarity object
-                    warm = {"recipe": wrec, "how": A.WARM_KINDS[(k // 3) % len(A.WARM_KINDS)]}
+                    warm = {"recipe": wrec, "how": A.WARM_KINDS[(k // 4) % len(A.WARM_KINDS)]}
                     obs2 = A.eval_case(spec, recipe, backend, KIND, warm=warm)
                     res["evaluations"] += 1
                     res["transitions"] += 2
